@@ -95,7 +95,7 @@ def bit (b : Bool) : String := if b then "1" else "0"
 def handle (line : String) : String :=
   match words line with
   | ["esc", s] => match parseStr s with
-    | some s => showStr (escapeParsable cc s)
+    | some s => showStr (escapeParsable s)
     | none => "bad-op"
   | ["unesc", s] => match parseStr s with
     | some s => match unescapeParsable s with
@@ -103,7 +103,7 @@ def handle (line : String) : String :=
       | none => "err"
     | none => "bad-op"
   | ["eid", s] => match parseStr s with
-    | some s => showStr (escapeId cc s)
+    | some s => showStr (escapeId s)
     | none => "bad-op"
   | "str" :: ty => match parseTy ty with
     | some (t, []) => showStr (stripWs false (str cc t))
